@@ -102,11 +102,14 @@ def associate(entries, sites):
             pending.append(e)
     for e in pending:
         cands = [s for s in sites if s[:3] == (e.file, e.func, e.kind) and s[:4] not in claimed]
+        rivals = [x for x in pending if (x.file, x.func, x.kind) == (e.file, e.func, e.kind)]
         best, br = None, 0.0
         for s in cands:
             r = difflib.SequenceMatcher(None, e.text, s[3]).ratio()
             if r > br:
                 best, br = s, r
+        if len(cands) == 1 and len(rivals) == 1:
+            br = 1.0          # one message of this function and kind disappeared, one appeared: the same check reworded
         if best is not None and br >= 0.5:
             claimed.add(best[:4])
             e.cur_text = best[3]
